@@ -717,6 +717,8 @@ class DatasetProcessor:
                 for k, v in tsc.stats_dict.items():
                     transcript_stat_counter.stats_dict[k] += v
 
+        # merging removes per-chromosome files, they have to be generated again if the run is interrupted from now on
+        clean_locks(chr_ids, dump_filename, reads_processed_lock_file_name)
         if not self.args.no_model_construction:
             self.merge_transcript_models(sample.prefix, aggregator, chr_ids, gff_printer)
             logger.info("Transcript model file " + gff_printer.model_fname)
